@@ -69,6 +69,10 @@ def build(rep, shape, aggs, comps, problem_kind, mins):
     """population as Individual objects; returns (problem, inds)"""
     if problem_kind == "multi":
         problem = sc.make_problem(mins)
+    elif problem_kind == "multi-one-min":
+        # a multi-objective problem with ONE objective, minimised, and the library's default aggregate (the negated component)
+        from geneticengine.problems import MultiObjectiveProblem
+        problem = MultiObjectiveProblem(minimize=[True], fitness_function=lambda p: [p[1]])
     else:
         problem = SingleObjectiveProblem(lambda p: p[1], minimize=(problem_kind == "single-min"))
     objs = {}
@@ -114,6 +118,14 @@ def tournament_case(h: Harness, shape, aggs, kind, ts, wr, k, script_or_source, 
     res = run_selection(step, problem, rep, rec, inds, k, form)
     h.count(f"tournament:population-as-{form}")
     pop = lib_pop(inds, problem)
+    if kind == "multi-one-min":
+        # judged by what the DECLARATION says (one minimised objective: a smaller value is fitter), not by the aggregate stored
+        truth = [[i.genotype[0], -i.genotype[1], [i.genotype[1]]] for i in inds]
+        if pop != truth:
+            h.fail("TournamentSelection.apply", "ranks-by-an-aggregate-that-ignores-the-declared-direction",
+                   f"one-objective MultiObjectiveProblem(minimize=[True]): the individuals carry (id, aggregate, components) {pop}, the declaration gives {truth}",
+                   [shape, aggs])
+        pop = truth
     return pop, res, rec
 
 
@@ -162,7 +174,7 @@ def check_tournament_exhaustive(h: Harness):
                                 continue
                             if ts >= 4 and k >= 3:
                                 continue
-                            kind = ("multi", "single-max", "single-min")[(n + ts + k) % 3]
+                            kind = ("multi", "single-max", "single-min", "multi-one-min")[(n + ts + k) % 4]
                             holder = {}
 
                             def fn(src):
@@ -188,7 +200,7 @@ def check_tournament_random(h: Harness):
         ts = rng.choice([1, 2, 3, 5, 7, n, n + 3])
         wr = rng.random() < 0.5
         k = rng.randint(0, n + 2)
-        kind = rng.choice(["multi", "single-max", "single-min"])
+        kind = rng.choice(["multi", "single-max", "single-min", "multi-one-min"])
         if rng.random() < 0.3:
             rec = Recording(NativeRandomSource(rng.randrange(10**6)))
             pop, res, rec = tournament_case(h, shape, aggs, kind, ts, wr, k, rec, "native", rng.choice(["list", "iterator", "generator", "tuple"]))
